@@ -210,6 +210,14 @@ theorem scoping_use_captures_at_definition :
 example : outErr (run 50 [.throw (.str "boom")]) = some .user := by decide
 example : outNum (run 50 [.try (.block [.throw (.str "boom")]) (.block []), .num 4]) = some 4 := by decide
 
+/-- **Counterexample to "Array#join joins all elements"** (doc/18; finding F-C15e): the faithful model of Array::Join folds with
+    `+`, and `Empty + Boolean` is a type error — `[true, false].join(",")` raises, while `[1, "a"].join(",")` is "1,a". -/
+theorem array_join_counterexample :
+    outErr (run 60 [.call (.index (.array [.bool true, .bool false]) (.str "join")) [.str ","]]) = some .optype ∧
+    (match run 60 [.call (.index (.array [.num (1 : Int), .str "a"]) (.str "join")) [.str ","]] with
+     | (.val _ (.str s), _) => s == "1,a" | _ => false) = true := by
+  decide
+
 /-- the spec predicate rejects a crash, a non-deterministic and a parenthesisation-dependent observation. -/
 example : Spec.checkProgram ⟨"crash:sig=8", "crash:sig=8", "crash:sig=8"⟩ = some "no_crash" := by decide
 example : Spec.checkProgram ⟨"v:#1", "v:#1", "v:#2"⟩ = some "deterministic" := by decide
@@ -223,5 +231,9 @@ example : Spec.checkAgainstReference "catchloop5" "e:stack" (some "v:#1") 40 = s
 example : Spec.checkAgainstReference "scope3" "v:[#2]" (some "v:[#1]") 10 = some "scoping_use_copies_per_call" := by decide
 example : Spec.checkAgainstReference "arrsub9" "e:optype" (some "v:[]") 5 = some "operator_typing_array_minus_total" := by decide
 example : Spec.checkAgainstReference "recursion400" "e:stack" (some "e:stack") 300 = none := by decide
+example : Spec.checkAgainstReference "elif7" "v:[s6232]" (some "v:[s6230]") 9 = some "conditional_branches_in_source_order" := by decide
+example : Spec.checkAgainstReference "selfkeep2" "e" (some "v:[]") 9 = some "scoping_this_restored_after_error" := by decide
+example : Spec.checkAgainstReference "emptystr4" "v:[#1]" (some "v:[#0]") 9 = some "prototype_method_on_empty_string" := by decide
+example : Spec.checkAgainstReference "joinscalar1" "e" (some "e") 9 = some "array_join_total_on_scalars" := by decide
 
 end Icinga.C15.Proofs
